@@ -8,5 +8,12 @@ p = os.path.join(ROOT, "DESIGN.md")
 s = open(p).read()
 lst = subprocess.check_output("git -C /repo log --format='- `%h` %s' --reverse ea64adb..HEAD", shell=True, text=True)
 s = re.sub(r"(<!-- FIXLIST-BEGIN[^\n]*-->\n).*?(<!-- FIXLIST-END -->)", lambda m: m.group(1) + lst + m.group(2), s, flags=re.S)
+import json
+kf = json.load(open(os.path.join(ROOT, "known_findings.json")))["findings"]
+lines = []
+for e in sorted([e for e in kf if e["status"] == "open"], key=lambda e: (e["property"], e["signature"])):
+    w = e["what"].replace("\n", " ")
+    lines.append("- **%s** `%s` - %s" % (e["property"], e["signature"], (w[:300] + "…") if len(w) > 300 else w))
+s = re.sub(r"(<!-- OPENFINDINGS-BEGIN[^\n]*-->\n).*?(<!-- OPENFINDINGS-END -->)", lambda m: m.group(1) + "\n".join(lines) + "\n" + m.group(2), s, flags=re.S)
 open(p, "w").write(s)
 print("DESIGN.md: %d fix commits listed" % lst.count("\n"))
